@@ -554,3 +554,7 @@ Fixpoint c15_run (dels : list (cname * list cid)) (ix : idx) (cs : caches) (befo
 Definition check_c15 (c : c15case) : N :=
   let '(m, p) := c15_run (c15_dels c) (idx_of (c15_dels c) (c15_adds c)) (list_to_map (c15_caches c)) (c15_caches c) (c15_acts c) in
   code m p.
+
+(* ---------- C16 (dynamic part) ---------- *)
+Inductive c16case := C16Pair (reports : N).
+Definition check_c16 (c : c16case) : N := match c with C16Pair n => if (n =? 0)%N then 0%N else 2%N end.
